@@ -40,3 +40,30 @@ pub mod generic;
 use self::generic as arch;
 
 pub use self::arch::{vec128_storage, vec256_storage, vec512_storage};
+
+/// Verification hook (off unless built with `--cfg cryptocorrosion_verif`): lets a deterministic
+/// simulator decide which CPU capability level the run-time dispatchers see.
+#[cfg(cryptocorrosion_verif)]
+pub mod verif {
+    use core::sync::atomic::{AtomicUsize, Ordering};
+
+    static LEVEL_FN: AtomicUsize = AtomicUsize::new(0);
+
+    /// Install (or remove) the callback consulted by `dispatch!`, `dispatch_light128!` and
+    /// `dispatch_light256!`. It receives the name of the dispatching function and returns
+    /// 0 (no override) or 1..=5 for SSE2, SSSE3, SSE4.1, AVX, AVX2.
+    pub fn set_level_fn(f: Option<fn(&'static str) -> u8>) {
+        LEVEL_FN.store(f.map(|f| f as usize).unwrap_or(0), Ordering::SeqCst);
+    }
+
+    #[inline]
+    pub fn level(site: &'static str) -> u8 {
+        let p = LEVEL_FN.load(Ordering::Relaxed);
+        if p == 0 {
+            0
+        } else {
+            let f: fn(&'static str) -> u8 = unsafe { core::mem::transmute(p) };
+            f(site)
+        }
+    }
+}
